@@ -1,6 +1,7 @@
 import Zrnt.Driver.Loop
 import Zrnt.Util.C19Driver
 import Zrnt.Config.C14Driver
+import Zrnt.State.C15Driver
 import Zrnt.Fault.Driver
 import Zrnt.Beacon.C02Driver
 import Zrnt.Beacon.BlockDriver
@@ -16,6 +17,7 @@ def modes : List Mode := [
   Zrnt.ForkChoice.Driver.fc09Mode, Zrnt.ForkChoice.Driver.fc10Mode, Zrnt.ForkChoice.Driver.fc11Mode,
   Zrnt.Util.c19Mode,
   Zrnt.Config.c14Mode,
+  Zrnt.State.c15Mode,
   Zrnt.Fault.c18Mode,
   Zrnt.Beacon.c02Mode,
   Zrnt.Beacon.Block.c01Mode, Zrnt.Beacon.Block.c03Mode, Zrnt.Beacon.Block.blockWhyMode,
